@@ -11,6 +11,7 @@ VALID = "parameters: {p: 1, q: \"%p% x\"}\nservices:\n  a: {value: \"V\", getter
 DEFECTS = {
     "yaml-syntax": "parameters: {p: 1\nservices: [",
     "yaml-type": "services: 5\n",
+    "yaml-types-multiline": "meta:\n  pkg: [main]\nservices:\n  s:\n    arguments: notalist\n    tags: 5\nparameters: [1]\n",
     "grammar": "parameters: {\"1bad\": 1}\nservices: {s: {constructor: \"New X\"}}\n",
     "missing-param": "services: {s: {constructor: NewS, arguments: [\"%nope%\"]}}\n",
     "missing-service": "services: {s: {constructor: NewS, arguments: [\"@nope\"]}}\n",
@@ -116,6 +117,9 @@ def run(tier, seed, replay):
                 nums = re.findall(r"^(\d+)\. ", tail, re.M)
                 if m is None or int(m.group(1)) != len(errs) or [int(x) for x in nums[:len(errs)]][-1:] != [len(errs)]:
                     out.violation("count-mismatch:" + cls, "the count on the failing step's END line differs from the numbered list", rep)
+                # the numbered list itself: entries are numbered 1..n with n = the reported count (a message may span several lines)
+                elif [int(x) for x in nums] != list(range(1, int(m.group(1)) + 1)):
+                    out.violation("count-mismatch:" + cls, "the step reports %s errors but the list is numbered %s" % (m.group(1), nums[-3:]), rep)
             if not errs:
                 out.violation("failure-without-errors:" + cls, "exit 1 with an empty error list", rep)
             nontrivial.add(cls + "|" + json.dumps(errs)[:200])
